@@ -158,6 +158,14 @@ def _():
     assert strip(parse("s 'http://x.y'; //\nb 1;\n")) == {"s": "http://x.y", "b": 1}
     s = NativeParser().parse_string("/* see http://x.y */ //\na 1;\n", SDict())
     assert list(s.block_comments.values()) == ["/* see http://x.y */"], s.block_comments
+@w("D43")
+def _():
+    for d in ({"k": ["#", "include", "foo"]}, {"k": ["#", "includes"]}, {"k": "#"}):
+        assert rt(d) == d, d
+@w("D44")
+def _():
+    r = readtext('a 0; b "1 / $a"; c "$a + 1"; l (1 2 3); d "$l / 2";')
+    assert r["c"] == 1 and isinstance(r["b"], str) and isinstance(r["d"], str), r
 
 if __name__ == "__main__":
     sel = sys.argv[1:] or list(W)
